@@ -288,7 +288,7 @@ func main() {
 		fmt.Println("INCONCLUSIVE encoding-vs-implementation mismatch:", p)
 	}
 	if *verbose {
-		fmt.Printf("witnesses: native agree=%d ssa-concrete agree=%d problems=%d (%.1fs)\n", natOK, ssaOK, len(problems), time.Since(witT).Seconds())
+		fmt.Printf("witnesses: native agree=%d ssa-concrete agree=%d (of which %d after the native scheduler took another interleaving) problems=%d (%.1fs)\n", natOK, ssaOK, len(scheduleNotes), len(problems), time.Since(witT).Seconds())
 	}
 	for _, l := range lines {
 		fmt.Println(l)
